@@ -249,3 +249,42 @@ def run_cli_slow_reader(script, args, sip=512, pause=0.002, timeout=180, hashsee
         timed_out = True; p.kill(); p.wait()
     te.join(10)
     return b''.join(out), b''.join(x or b'' for x in err), p.returncode, timed_out
+
+
+def run_cli_stderr_closed(script, args, marker=b"Press 'q'", timeout=180, hashseed='0', max_out=64 << 20):
+    """The CLI with stderr on a pipe whose reading end is closed once `marker` has been seen there (a logger on stderr that goes away, `2>&1 | head`): further
+    writes to stderr fail, stdout stays healthy and is read to the end.  Returns (stdout, stderr_seen, returncode, timed_out)."""
+    import time
+    s_ = repo.scratch()
+    cmd = [sys.executable, '-B', '-W', 'ignore', os.path.join(s_, script)] + list(args)
+    e = dict(os.environ, PYTHONHASHSEED=str(hashseed), PYTHONIOENCODING='utf-8')
+    e.pop('VERIF_SCRATCH', None); e.pop('PYTHONUNBUFFERED', None)
+    p = subprocess.Popen(cmd, stdin=subprocess.DEVNULL, stdout=subprocess.PIPE, stderr=subprocess.PIPE, cwd=s_, env=e)
+    out = []
+    def rd():
+        n = 0
+        while True:
+            chunk = p.stdout.read(1 << 16)
+            if not chunk:
+                break
+            n += len(chunk)
+            if n <= max_out:
+                out.append(chunk)
+            else:
+                p.kill()
+    t = threading.Thread(target=rd, daemon=True); t.start()
+    seen, t0 = b'', time.time()
+    fd = p.stderr.fileno()
+    while marker not in seen and time.time() - t0 < 30:
+        chunk = os.read(fd, 4096)
+        if not chunk:
+            break
+        seen += chunk
+    p.stderr.close()
+    timed_out = False
+    try:
+        p.wait(timeout=timeout)
+    except subprocess.TimeoutExpired:
+        timed_out = True; p.kill(); p.wait()
+    t.join(10)
+    return b''.join(out), seen, p.returncode, timed_out
